@@ -129,6 +129,8 @@ def mk_scalar(spec, seed=0):
         return np.float64(v)
     if k == 'np.float32':
         return np.float32(v)
+    if k == 'np.uint8':
+        return np.uint8(int(round(v)) % 256 if abs(v) < 1e6 else 3)
     if k == 'np.int64':
         return np.int64(int(round(v)) if abs(v) < 1e6 else 3)
     if k == 'tensor0':
